@@ -499,6 +499,29 @@ var segPool = []string{"dav", "u", "user", "alice", "cal", "contacts", "work", "
 
 func genSeg(rt *rapid.T, label string) string { return rapid.SampledFrom(segPool).Draw(rt, label) }
 
+// relatedSeg derives a different, non-empty segment from own: a proper prefix, an extension, or a case variant.
+func relatedSeg(rt *rapid.T, own string) string {
+	rs := []rune(own)
+	var cands []string
+	if len(rs) > 1 {
+		cands = append(cands, string(rs[:len(rs)-1]), string(rs[:1]))
+	}
+	cands = append(cands, own+"x", own+own, "x"+own)
+	if up := strings.ToUpper(own); up != own {
+		cands = append(cands, up)
+	}
+	if lo := strings.ToLower(own); lo != own {
+		cands = append(cands, lo)
+	}
+	var ok []string
+	for _, c := range cands {
+		if c != own && c != "" && c != "." && c != ".." {
+			ok = append(ok, c)
+		}
+	}
+	return rapid.SampledFrom(ok).Draw(rt, "relatedseg")
+}
+
 func genLayout(rt *rapid.T) Layout {
 	l := Layout{Server: rapid.SampledFrom([]string{"caldav", "carddav"}).Draw(rt, "server")}
 	n := rapid.IntRange(0, 3).Draw(rt, "nprefix")
@@ -592,6 +615,10 @@ func TestRequests(t *testing.T) {
 		for i := 0; i < depth; i++ {
 			if i < len(own) && rapid.IntRange(0, 4).Draw(rt, "own") != 0 {
 				r.Segs = append(r.Segs, own[i])
+			} else if i < len(own) && rapid.IntRange(0, 2).Draw(rt, "related") == 0 {
+				// a foreign name that is textually related to the own one: guards written with prefix or
+				// case-insensitive comparisons let exactly these through
+				r.Segs = append(r.Segs, relatedSeg(rt, own[i]))
 			} else {
 				r.Segs = append(r.Segs, genSeg(rt, "foreign"))
 			}
